@@ -173,16 +173,35 @@ def powers(rep, c, sfx):
     loops = [n for n in walk(expr["body"]) if kind(n) == "Loop"]
     okc = False
     cond_txt = "?"
+    elets = hirq.lets(expr["body"])
+
+    def is_lbp(b):
+        """b is the next operator's left binding power: a call (or inlined call) of a function of the Pratt module
+        that returns a precedence, directly or through an immutable let."""
+        b = peel(b)
+        d = 0
+        while d < 6 and kind(b) == "Path" and b.get("res") == "local" and b["id"] in elets:
+            b = peel(elets[b["id"]][0])
+            d += 1
+        if kind(b) in ("MethodCall", "Call") and str(callee(b)).startswith("pest::pratt_parser::"):
+            return True
+        return kind(b) == "Block" and str(b.get("inlined", "")).startswith("pest::pratt_parser::")
     for lp in loops:
         for x in walk(lp["body"]):
             if kind(x) == "If":
                 cnd = peel(x["cond"])
                 cond_txt = hirq.expr_text(cnd)
                 if kind(cnd) == "Binary" and cnd["op"] in ("<", ">"):
+                    # `while rbp < lbp` : the loop continues under the strict comparison
                     a, b = (cnd["l"], cnd["r"]) if cnd["op"] == "<" else (cnd["r"], cnd["l"])
-                    if rbp and hirq.local_id(a) == rbp[0] and (
-                            (kind(peel(b)) == "MethodCall" and peel(b).get("path", "").startswith(PM + "::"))
-                            or (kind(peel(b)) == "Block" and str(peel(b).get("inlined", "")).startswith(PM + "::"))):
+                    continues = not hirq.diverges(x["then"])
+                    if rbp and hirq.local_id(a) == rbp[0] and is_lbp(b) and continues:
+                        okc = True
+                if kind(cnd) == "Binary" and cnd["op"] in (">=", "<="):
+                    # `if rbp >= lbp { break }` : the same test, spelled as the exit
+                    a, b = (cnd["l"], cnd["r"]) if cnd["op"] == ">=" else (cnd["r"], cnd["l"])
+                    exits_loop = hirq.diverges(x["then"]) and x.get("else") is None
+                    if rbp and hirq.local_id(a) == rbp[0] and is_lbp(b) and exits_loop:
                         okc = True
                 break
 
